@@ -419,6 +419,95 @@ WellFormedCffRep(f, rep) ==
 NamesUnderRep(f, rep) == IF rep.charset \in {"iso-omitted", "iso-0"} THEN [i \in 1 .. f.n |-> i - 1] ELSE f.name
 CffRepIndependent(f, rep) == NamesUnderRep(f, rep) = f.name
 
+\* ---- CFF with subroutines, CID-keyed CFF: used subroutines at stable indices, FDSelect rebuilt ----
+(***************************************************************************)
+(* CFF::subset copies the charstrings of the requested glyphs byte for     *)
+(* byte.  What such a charstring draws depends on three things outside it: *)
+(*   - the global Subr INDEX (callgsubr),                                  *)
+(*   - the local Subr INDEX of the glyph's Font DICT (callsubr) - for a     *)
+(*     CID-keyed font the Font DICT FDSelect assigns to the glyph,          *)
+(*   - the NUMBER of subroutines of that INDEX: the operand of a call is    *)
+(*     biased (index = operand + Bias(count), TN5177 section 4.7), so an    *)
+(*     INDEX rebuilt with another count re-targets every copied call.       *)
+(* allsorts keeps every INDEX at its source length, fills in the used       *)
+(* subroutines (those a requested glyph reaches, also through other         *)
+(* subroutines; a local one also when only a global subroutine calls it)    *)
+(* and leaves the others empty; an INDEX nothing uses is dropped; FDSelect  *)
+(* is written afresh (format 0) from the Font DICT of each OLD id.          *)
+(* Abstract font [n, nfd, fd, glyph, lsub, gsub]:                           *)
+(*   fd[g+1]     Font DICT of glyph g (0 for a name-keyed font: nfd = 1)    *)
+(*   glyph[g+1]  charstring: sequence of items <<0, shape token>>,          *)
+(*               <<1, operand>> (callsubr), <<2, operand>> (callgsubr)      *)
+(*   lsub[f+1], gsub   a Subr INDEX [n, def, empty]: n subroutines, def =   *)
+(*               sequence of <<index, body>> for the ones that matter, the  *)
+(*               others hold a bare `return` (empty = FALSE: a source) or   *)
+(*               nothing at all (empty = TRUE: a rebuilt INDEX)             *)
+(* The outline of a glyph is the sequence of shape tokens its charstring    *)
+(* draws (CidOutline); a call that leaves the INDEX, enters an empty        *)
+(* subroutine or nests deeper than 10 has no outline.                       *)
+(***************************************************************************)
+Bias(n) == IF n < 1240 THEN 107 ELSE IF n < 33900 THEN 1131 ELSE 32768
+NoSubrs == [n |-> 0, def |-> <<>>, empty |-> TRUE]
+MaxSubrDepth == 10
+SubrDefined(ix, k) == \E i \in 1 .. Len(ix.def) : ix.def[i][1] = k
+SubrBody(ix, k) == ix.def[CHOOSE i \in 1 .. Len(ix.def) : ix.def[i][1] = k][2]
+SubrIndexOf(f, fd, it) == IF it[1] = 1 THEN f.lsub[fd + 1] ELSE f.gsub
+
+RECURSIVE CsRun(_, _, _, _)
+CsRun(f, fd, cs, fuel) ==
+  IF cs = <<>> THEN [ok |-> TRUE, ls |-> <<>>]
+  ELSE LET it == Head(cs)
+           first == IF it[1] = 0 THEN [ok |-> TRUE, ls |-> <<it[2]>>]
+                    ELSE LET ix == SubrIndexOf(f, fd, it)
+                             k == it[2] + Bias(ix.n)
+                         IN IF fuel = 0 \/ k < 0 \/ k >= ix.n THEN NoOutline
+                            ELSE IF SubrDefined(ix, k) THEN CsRun(f, fd, SubrBody(ix, k), fuel - 1)
+                            ELSE IF ix.empty THEN NoOutline ELSE [ok |-> TRUE, ls |-> <<>>]
+       IN IF ~first.ok THEN NoOutline
+          ELSE LET rest == CsRun(f, fd, Tail(cs), fuel) IN
+               IF rest.ok THEN [ok |-> TRUE, ls |-> first.ls \o rest.ls] ELSE NoOutline
+CidOutline(f, g) == CsRun(f, f.fd[g + 1], f.glyph[g + 1], MaxSubrDepth)
+
+\* char_string_used_subrs: every <<1 | 2, index>> a charstring reaches (the interpreter walks into the subroutines)
+RECURSIVE CsUsed(_, _, _, _)
+CsUsed(f, fd, cs, fuel) ==
+  UNION {IF it[1] = 0 \/ fuel = 0 THEN {}
+         ELSE LET ix == SubrIndexOf(f, fd, it)
+                  k == it[2] + Bias(ix.n)
+              IN IF k < 0 \/ k >= ix.n THEN {}
+                 ELSE {<<it[1], k>>} \cup (IF SubrDefined(ix, k) THEN CsUsed(f, fd, SubrBody(ix, k), fuel - 1) ELSE {})
+         : it \in Range(cs)}
+UsedLocal(f, g) == {u[2] : u \in {v \in CsUsed(f, f.fd[g + 1], f.glyph[g + 1], MaxSubrDepth) : v[1] = 1}}
+UsedGlobal(f, g) == {u[2] : u \in {v \in CsUsed(f, f.fd[g + 1], f.glyph[g + 1], MaxSubrDepth) : v[1] = 2}}
+
+RECURSIVE SortedSeq(_)
+SortedSeq(S) == IF S = {} THEN <<>> ELSE LET m == MinOf(S) IN <<m>> \o SortedSeq(S \ {m})
+\* rebuild_*_subr_index: same number of entries, the used ones copied, the others empty; nothing used = no INDEX
+KeepSubrs(ix, U) ==
+  IF U = {} THEN NoSubrs
+  ELSE [n |-> ix.n, empty |-> TRUE,
+        def |-> LET q == SortedSeq(U) IN [i \in 1 .. Len(q) |-> <<q[i], IF SubrDefined(ix, q[i]) THEN SubrBody(ix, q[i]) ELSE <<>> >>]]
+
+\* the loop of CFF::subset on a state [cur, glyphs, fdsel, usedG, usedL] (usedL[i]: local subroutines of the i-th new glyph)
+Cid0 == [cur |-> 0, glyphs |-> <<>>, fdsel |-> <<>>, usedG |-> {}, usedL |-> <<>>]
+CidStep(src, req, st) ==
+  LET g == req[st.cur + 1] IN
+  [cur |-> st.cur + 1, glyphs |-> Append(st.glyphs, src.glyph[g + 1]), fdsel |-> Append(st.fdsel, src.fd[g + 1]),
+   usedG |-> st.usedG \cup UsedGlobal(src, g), usedL |-> Append(st.usedL, UsedLocal(src, g))]
+CidOut(src, st) ==
+  [n |-> Len(st.glyphs), nfd |-> src.nfd, fd |-> st.fdsel, glyph |-> st.glyphs,
+   gsub |-> KeepSubrs(src.gsub, st.usedG),
+   lsub |-> [f \in 1 .. src.nfd |-> KeepSubrs(src.lsub[f], UNION {st.usedL[i] : i \in {j \in 1 .. Len(st.glyphs) : st.fdsel[j] = f - 1}})]]
+
+\* what the property demands, stated without the machine: the requested glyphs in order, each drawing what it drew
+CidSubsetRelation(src, req, out) ==
+  /\ out.n = Len(req)
+  /\ \A n \in 0 .. out.n - 1 : CidOutline(out, n) = CidOutline(src, req[n + 1])
+\* copied calls keep their targets only if every rebuilt INDEX stays in the bias class of its source
+BiasKept(src, out) ==
+  /\ out.gsub.n > 0 => Bias(out.gsub.n) = Bias(src.gsub.n)
+  /\ \A f \in 1 .. src.nfd : out.lsub[f].n > 0 => Bias(out.lsub[f].n) = Bias(src.lsub[f].n)
+
 \* ---- the property -----------------------------------------------------------------
 \* a retained glyph keeps its kind and its instructions, a retained composite every field of every
 \* component except the (renumbered) glyph id (Dev_ArgWidth: and the argument width)
